@@ -13,6 +13,7 @@ import (
 	"math/rand"
 	"net/http/httptest"
 	"os"
+	"runtime/debug"
 	"sync"
 	"sync/atomic"
 	"time"
@@ -26,6 +27,7 @@ import (
 	"github.com/aws/aws-sdk-go/service/ec2"
 	"github.com/prometheus/client_golang/prometheus/promhttp"
 	log "github.com/sirupsen/logrus"
+	jsonpatch "gopkg.in/evanphx/json-patch.v4"
 	v1 "k8s.io/api/core/v1"
 	apierrors "k8s.io/apimachinery/pkg/api/errors"
 	"k8s.io/apimachinery/pkg/api/resource"
@@ -33,6 +35,8 @@ import (
 	"k8s.io/apimachinery/pkg/labels"
 	"k8s.io/apimachinery/pkg/runtime"
 	"k8s.io/apimachinery/pkg/runtime/schema"
+	"k8s.io/apimachinery/pkg/types"
+	"k8s.io/apimachinery/pkg/util/strategicpatch"
 	"k8s.io/client-go/kubernetes/fake"
 	v1lister "k8s.io/client-go/listers/core/v1"
 	core "k8s.io/client-go/testing"
@@ -120,6 +124,43 @@ func (s *store) react(action core.Action) (bool, runtime.Object, error) {
 		s.nodes[sent.Name] = stored
 		atomic.AddInt64(&s.updates, 1)
 		return true, stored.DeepCopy(), nil
+	case "patch":
+		pa := action.(core.PatchAction)
+		s.mu.Lock()
+		defer s.mu.Unlock()
+		cur, ok := s.nodes[pa.GetName()]
+		if !ok {
+			return true, nil, apierrors.NewNotFound(gr, pa.GetName())
+		}
+		old, _ := json.Marshal(cur)
+		var merged []byte
+		var err error
+		switch pa.GetPatchType() {
+		case types.JSONPatchType:
+			var jp jsonpatch.Patch
+			if jp, err = jsonpatch.DecodePatch(pa.GetPatch()); err == nil {
+				merged, err = jp.Apply(old)
+			}
+		case types.MergePatchType:
+			merged, err = jsonpatch.MergePatch(old, pa.GetPatch())
+		default:
+			merged, err = strategicpatch.StrategicMergePatch(old, pa.GetPatch(), &v1.Node{})
+		}
+		stored := &v1.Node{}
+		if err == nil {
+			err = json.Unmarshal(merged, stored)
+		}
+		if err != nil {
+			return true, nil, apierrors.NewBadRequest(err.Error())
+		}
+		if stored.ResourceVersion != cur.ResourceVersion {
+			return true, nil, apierrors.NewConflict(gr, pa.GetName(), fmt.Errorf("the object has been modified"))
+		}
+		s.rv++
+		stored.ResourceVersion = fmt.Sprint(s.rv)
+		s.nodes[pa.GetName()] = stored
+		atomic.AddInt64(&s.updates, 1)
+		return true, stored.DeepCopy(), nil
 	case "delete":
 		name := action.(core.DeleteAction).GetName()
 		s.mu.Lock()
@@ -200,6 +241,8 @@ type summary struct {
 	Stopped       bool    `json:"stopped"`
 	LoopError     string  `json:"loop_error"`
 	Panic         string  `json:"panic"`
+	Unmodelled    string  `json:"unmodelled,omitempty"`
+	PanicStack    string  `json:"panic_stack,omitempty"`
 }
 
 func main() {
@@ -270,7 +313,14 @@ func main() {
 	go func() {
 		defer func() {
 			if p := recover(); p != nil {
-				sum.Panic = fmt.Sprint(p)
+				stack := string(debug.Stack())
+				sum.PanicStack = stack
+				if m := sim.UnmodelledAWSCall(stack); m != "" {
+					// not escalator's panic: an AWS operation the simulated cloud does not implement
+					sum.Unmodelled = "aws operation " + m + " is not modelled by the simulated cloud"
+				} else {
+					sum.Panic = fmt.Sprint(p)
+				}
 				loopErr <- fmt.Errorf("panic: %v", p)
 			}
 		}()
